@@ -126,8 +126,11 @@ class IPv4FlowSpec(NLRI):
         construct a prefix string from '1.1.1.0/24' to '\x18\x01\x01\x01'
         """
         ip, masklen = prefix.split('/')
-        ip_hex = netaddr.IPAddress(ip).packed
+        ip = netaddr.IPAddress(ip)
         masklen = int(masklen)
+        if ip.version != 4 or not 0 <= masklen <= 32:
+            raise ValueError('%s is not an IPv4 prefix' % prefix)
+        ip_hex = ip.packed
         if 16 < masklen <= 24:
             ip_hex = ip_hex[0:3]
         elif 8 < masklen <= 16:
